@@ -455,11 +455,16 @@ class IntegerSequence(SequenceBase):
             # implies a one-off task was declared sequential
             # TODO - check this results in sensible behaviour
             return None
-        i = int(point - self.p_start) % int(self.i_step)
-        if i:
-            prev_point = point - IntegerInterval.from_integer(i)
+        if self.p_stop is not None and point > self.p_stop:
+            # the last point of the sequence is the previous one, however
+            # far above the stop "point" is
+            prev_point = self.p_stop
         else:
-            prev_point = point - self.i_step
+            i = int(point - self.p_start) % int(self.i_step)
+            if i:
+                prev_point = point - IntegerInterval.from_integer(i)
+            else:
+                prev_point = point - self.i_step
         ret = self._get_point_in_bounds(prev_point)
         if self.exclusions and ret is not None and ret in self.exclusions:
             return self.get_prev_point(ret)
